@@ -1,6 +1,7 @@
 import ICal.Driver.Text
 import ICal.Driver.Fold
 import ICal.Driver.Line
+import ICal.Driver.Tree
 import ICal.Driver.StartEnd
 import ICal.Driver.Codec
 import ICal.Driver.CDict
@@ -9,7 +10,7 @@ import ICal.Driver.Tz
 import ICal.Driver.Alarm
 open ICal.Driver
 
-def handlers : List (String → List String → Option String) := [handleText, handleFold, handleLine, handleStartEnd, handleCodec, handleCDict, handleWalk, handleTz, handleAlarm]
+def handlers : List (String → List String → Option String) := [handleText, handleFold, handleLine, handleTree, handleStartEnd, handleCodec, handleCDict, handleWalk, handleTz, handleAlarm]
 
 def step (line : String) : String :=
   let l := line.dropRightWhile (fun c => c == (Char.ofNat 10) || c == (Char.ofNat 13))
